@@ -247,7 +247,7 @@ class Unit:
            ctx_ok_or=(), external_body=False, props=None, safety_props=None, which=0,
            canary=False, rename=None, mode_exec=True, opens_invariants=None, no_unwind=False,
            sig_rewrites=(), header_attrs=(), assume_termination=False, container=None, bare=False,
-           no_body=False, ctx_sites=(), impl_which=0, synth=None, tail_proof=None, proof_label=None, transform=None, head_proof=None, opt_rewrites=(), asserts=(), trait_impl=False, drop_body=False):
+           no_body=False, ctx_sites=(), impl_which=0, synth=None, tail_proof=None, proof_label=None, transform=None, head_proof=None, opt_rewrites=(), asserts=(), trait_impl=False, drop_body=False, opt_sig_rewrites=()):
         """cut a function from /repo and splice a contract in.
 
         key: 'Type::name' or 'name'.  impl: regex of the impl header type (default = Type from key).
@@ -299,6 +299,9 @@ class Unit:
             sig, n = re.subn(pat, rep, sig)
             if n == 0:
                 raise CutError(f'{relpath}: fn {key}: signature rewrite /{pat}/ no longer matches')
+            self.drop(f'fn {key} signature: /{pat}/ -> {rep!r}', n)
+        for pat, rep in opt_sig_rewrites:
+            sig, n = re.subn(pat, rep, sig)
             self.drop(f'fn {key} signature: /{pat}/ -> {rep!r}', n)
         if not sig.startswith('pub') and not container and not trait_impl:
             sig = 'pub ' + sig
